@@ -703,9 +703,49 @@ def r48(ctx, fx):
         ctx.fail_closed(rid, "fewer than 3 pushes onto the code generator's stacks found (%d; import_stack, current_scope and macro_depth were counted)" % n)
 
 
+def r49(ctx, fx):
+    rid = ctx.rule("R4.9", "an error that was kept in a variable is not forgotten: no named local of type `Result<_, Diagnostics>` is dropped (MIR `drop`, not on an unwind "
+                   "path, not the old value that an assignment replaces) on a path that reaches a return without going through an error exit (`?` / `Err(..)`) — "
+                   "`let result = f(); if cond { return result; } …; Ok(())` swallows whatever f reported, the build goes on and writes its files")
+    n = 0
+    j = 0
+    for f in sorted(fx.all_fns(), key=lambda f: f.path):
+        if not f.blocks or "::tests::" in f.path or not f.path.lstrip("<").startswith(("mos_core::", "mos::commands::", "mos::main", "mos::run")):
+            continue
+        cands = [i for i, l in enumerate(f.locals) if l.get("name") and l["ty"].startswith("core::result::Result<") and "Diagnostics" in l["ty"]]
+        if not cands:
+            continue
+        err = lib.MustCall.error_exit_blocks(f)
+        live = lib.reachable(f, 0, removed=err)
+        rets = set(lib.return_blocks(f))
+        for bi, b in enumerate(f.blocks):
+            t = b["term"]
+            if t["k"] != "drop" or b["cleanup"] or t["place"].get("p") or t["place"]["l"] not in cands:
+                continue
+            n += 1
+            l = t["place"]["l"]
+            # the old value of a re-assignment: the successor writes the local first thing
+            nb = f.blocks[t["target"]]
+            first = nb["stmts"][0] if nb["stmts"] else None
+            replaced = (first is not None and first["k"] == "assign" and first["dst"]["l"] == l and not first["dst"].get("p")) or \
+                (not nb["stmts"] and nb["term"]["k"] == "call" and nb["term"]["dst"]["l"] == l and not nb["term"]["dst"].get("p"))
+            on_success = bi in live and bool(rets & lib.reachable(f, bi, removed=err))
+            key = "%s|%s#%d" % (f.path, f.locals[l]["name"], n)
+            ctx.inst(rid, key, sample={"fn": f.path, "local": f.locals[l]["name"], "line": t.get("line"), "old_value_of_an_assignment": replaced, "on_a_success_path": on_success})
+            if on_success and not replaced:
+                j += 1
+                ctx.finding(rid, "%s|%s|forgotten#%d" % (f.path, f.locals[l]["name"], j),
+                            "%s keeps a result in `%s` and lets it go out of scope on a path that returns without an error: what went wrong there — an illegal addressing "
+                            "mode, a branch out of range, a redefinition — is reported by nobody, the exit status is 0 and the output files are written" % (
+                                f.path.rsplit("::", 1)[-1], f.locals[l]["name"]), "%s:%s" % (f.file, t.get("line")))
+    if n < 3:
+        ctx.fail_closed(rid, "fewer than 3 drops of named Result<_, Diagnostics> locals found (%d)" % n)
+
+
 def run(ctx):
     fx = ctx.facts
     cg = lib.CallGraph(fx)
+    r49(ctx, fx)
     r45(ctx, fx)
     r46(ctx, fx)
     r47(ctx, fx)
